@@ -208,7 +208,7 @@ def _rename(s, cmap):
         return ('O', s[1], tuple(_rename(x, cmap) for x in s[2]))
     return ('Q', s[1], s[2], _rename(s[3], cmap))
 
-def satisfiable_in(sem, model, nodes, cap=3000):
+def satisfiable_in(sem, model, nodes, cap=20000, fixed_consts=None):
     """True/False, or None if the witness space exceeds `cap`."""
     sents = []
     access = []
@@ -219,16 +219,16 @@ def satisfiable_in(sem, model, nodes, cap=3000):
         if isinstance(n, AccessNode):
             access.append((n['world1'], n['world2']))
             for w in access[-1]:
-                if w not in model.worlds and w not in neww:
+                if (w != 0 if fixed_consts is not None else w not in model.worlds) and w not in neww:
                     neww.append(w)
         elif isinstance(n, SentenceNode):
             s = lexgen.to_ast(n['sentence'])
             w = n.get('world') or 0
             sents.append((s, w, n.get('designated')))
-            if w not in model.worlds and w not in neww:
+            if (w != 0 if fixed_consts is not None else w not in model.worlds) and w not in neww:
                 neww.append(w)
             for c in refsem.constants_of(s):
-                if c not in model.consts and c not in newc:
+                if (c not in fixed_consts if fixed_consts is not None else c not in model.consts) and c not in newc:
                     newc.append(c)
     if newc and not model.consts:
         return False
@@ -260,12 +260,19 @@ def satisfiable_in(sem, model, nodes, cap=3000):
                 return True
     return False
 
-def unsound_ext(sem, tab, model, cap=3000):
-    "Like unsound(), for arguments whose proofs introduce witnesses."
+def unsound_ext(sem, tab, model, cap=20000):
+    """Like unsound(), for arguments whose proofs introduce witnesses. Only world 0 and the
+    argument's own constants keep their names; every other world / constant on a branch was
+    introduced by the proof and may stand for any world / constant of the model."""
+    fixed = set()
+    arg = tab.argument
+    if arg is not None:
+        for snt in arg:
+            fixed |= {('c', c.index, c.subscript) for c in snt.constants}
     def sat_any(t):
         unknown = False
         for pre in prefixes_at(tab, t):
-            r = satisfiable_in(sem, model, pre, cap)
+            r = satisfiable_in(sem, model, pre, cap, fixed_consts=fixed)
             if r:
                 return True
             if r is None:
